@@ -30,13 +30,17 @@ def witness_search(tier, seed):
         for enc, text, ext in (("utf-8", "#TITLE:a;#ARTIST:x;", ".sm"), ("cp1252", "#TITLE:caf\xe9;#ARTIST:x;", ".sm"),
                                ("utf-8", "#VERSION:0.83;#TITLE:a;#NOTEDATA:;#STEPSTYPE:x;#NOTES:0000;", ".ssc")):
             for out, bak in ((None, None), (None, "bak" + ext), ("out" + ext, "bak" + ext)):
-                for what in ("raise-KeyboardInterrupt", "raise-ValueError", "cancel", "unserializable", "unencodable", "chart-without-notes"):
+                for what in ("raise-KeyboardInterrupt", "raise-ValueError", "cancel", "unserializable", "unencodable", "chart-without-notes", "backup-unopenable"):
                     cases.append((enc, text, ext, out, bak, what))
         for enc, text, ext, out, bak, what in cases:
             if what == "chart-without-notes" and ext != ".ssc":
                 continue
             if what == "unencodable" and enc == "utf-8":
                 continue
+            if what == "backup-unopenable":
+                if not bak:
+                    continue
+                bak = os.path.join("missing-dir", bak)
             for f in os.listdir(d):
                 os.remove(os.path.join(d, f))
             p = os.path.join(d, "in" + ext)
@@ -82,7 +86,7 @@ def witness_search(tier, seed):
                     continue
                 if inp_now != raw:
                     return dict(input=info, detail=f"saving failed with {type(escaped).__name__} and the input file now holds {inp_now[:40]!r} instead of its original bytes")
-                if bak and os.path.exists(kw["backup_filename"]):
+                if bak and os.path.exists(kw["backup_filename"]) and what != "backup-unopenable":
                     if open(kw["backup_filename"], "rb").read().decode(enc0).replace("\r\n", "\n") != str(sf0):
                         return dict(input=info, detail="the backup that was written does not hold the original simfile")
         return None
